@@ -1,5 +1,1032 @@
 package c04
 
-import "verifharness/hk"
+import (
+	"archive/zip"
+	"bytes"
+	"encoding/json"
+	"fmt"
+	"io"
+	"sort"
+	"strings"
+	"time"
 
-func Run(r *hk.Run) {}
+	"perkeep.org/pkg/blob"
+	"perkeep.org/pkg/blobserver/blobpacked"
+
+	"verifharness/hk"
+)
+
+// ---- one case: the implementation, the reference map (oracle) and what the oracle remembers ----------
+
+type caseRun struct {
+	r      *hk.Run
+	ex     func([]string) string
+	st     *execState
+	label  string
+	zipMax int
+
+	tbl      map[string]*lblob // every blob announced so far (the shadow packer's table)
+	order    []string          // … in order of announcement
+	ref      map[string][]byte // the reference map: acknowledged and not removed
+	wholes   map[string][]byte // whole ref -> file bytes, for files whose pack completed
+	anyWhole map[string][]byte // whole ref -> file bytes, for every file announced
+	shadow   map[string]bool   // zip refs the shadow packer expects to be stored
+	inZip    map[string]bool   // logical blobs that are inside some shadow zip
+	rmPacked map[string]bool   // removed while possibly packed (may come back on recovery: known finding)
+	recov    bool              // a recovery restart happened after the last removal of a packed blob
+	files    []*fileT
+	feats    map[string]bool
+}
+
+func newCase(r *hk.Run, label string, zipMax int) *caseRun {
+	r.Case(label)
+	st := &execState{}
+	c := &caseRun{r: r, st: st, label: label, zipMax: zipMax, tbl: map[string]*lblob{}, ref: map[string][]byte{},
+		wholes: map[string][]byte{}, anyWhole: map[string][]byte{}, shadow: map[string]bool{}, inZip: map[string]bool{},
+		rmPacked: map[string]bool{}, feats: map[string]bool{}}
+	c.ex = func(w []string) string { return hk.Guard(func() string { return st.exec(w) }) }
+	c.op(fmt.Sprintf("cfg %d", zipMax))
+	return c
+}
+
+func (c *caseRun) op(line string) string {
+	out := c.ex(strings.Fields(line))
+	c.r.Op(line, out)
+	return out
+}
+
+func (c *caseRun) fail(sig, detail, want, got string) {
+	c.r.Fail(sig, c.label+": "+detail, trunc(want), trunc(got), lightOps(c.r.CaseOps()))
+}
+
+func trunc(s string) string {
+	if len(s) > 400 {
+		return s[:400] + "…"
+	}
+	return s
+}
+
+// lightOps keeps replay lists small: a case whose ops carry megabytes of hex is referenced by seed.
+func lightOps(ops []string) []string {
+	n := 0
+	for _, o := range ops {
+		n += len(o)
+	}
+	if n > 200000 {
+		return []string{"# ops too large to embed; re-run with the same seed and tier"}
+	}
+	return ops
+}
+
+func (c *caseRun) announce(b *lblob) {
+	k := b.ref.String()
+	if c.tbl[k] == nil {
+		c.tbl[k] = b
+		c.order = append(c.order, k)
+	}
+}
+
+// recv uploads one blob with an optional write budget ("" = none) and keeps the oracle's books.
+func (c *caseRun) recv(b *lblob, budget string) (out string, atts []attempt) {
+	c.announce(b)
+	line := "recv " + b.ref.String() + " " + hk.Hex(b.data) + " " + b.kind
+	if budget != "" {
+		line += " " + budget
+	}
+	whole := ""
+	if strings.HasPrefix(b.kind, "file:") {
+		var ok bool
+		atts, whole, ok = shadowPack(c.tbl, b.ref, c.zipMax)
+		if ok {
+			line += " " + oracleWords(atts, whole)
+		} else {
+			atts = nil
+		}
+	}
+	out = c.op(line)
+	if strings.HasPrefix(out, "ok ") {
+		c.ref[b.ref.String()] = b.data
+	}
+	for _, a := range atts {
+		if a.stored {
+			c.shadow[a.ref] = true
+		}
+		if a.trunc != "" {
+			c.r.Hit("mech:truncate-and-retry")
+		}
+	}
+	if strings.Contains(out, " o=") && !strings.HasSuffix(out, " o=0") {
+		c.r.Hit("mech:estimate-ended-zip")
+	}
+	return out, atts
+}
+
+// ---- the property's oracle ------------------------------------------------------------------------------
+
+// sweep asks for every announced blob (fetch, stat, a few sub-ranges), the full enumeration and the
+// whole-file reads, and compares with the reference map and the file bytes.
+func (c *caseRun) sweep(rnd *hk.Rand) {
+	keys := append([]string(nil), c.order...)
+	sort.Strings(keys)
+	for _, k := range keys {
+		want := "notexist"
+		v, present := c.ref[k]
+		if present {
+			want = showBytes(v)
+		}
+		got := c.op("fetch " + k)
+		if got != want {
+			c.visibility(k, "fetch", want, got)
+			v, present = c.ref[k]
+		}
+		wantS := "notexist"
+		if present {
+			wantS = fmt.Sprint(len(v))
+		}
+		if got := c.op("stat " + k); got != wantS {
+			c.visibility(k, "stat", wantS, got)
+			v, present = c.ref[k]
+		}
+		if present && rnd.Chance(40) {
+			off, n := rnd.Intn(len(v)+2), rnd.Intn(len(v)+3)
+			if rnd.Chance(20) {
+				n = 1 << 30
+			}
+			want := "err"
+			if off <= len(v) {
+				end := off + n
+				if end > len(v) {
+					end = len(v)
+				}
+				want = showBytes(v[off:end])
+			}
+			if got := c.op(fmt.Sprintf("sub %s %d %d", k, off, n)); got != want {
+				c.fail("subfetch-mismatch", "sub "+k, want, got)
+			}
+		}
+	}
+	c.checkEnum("-", 100000)
+	if len(keys) > 0 && rnd.Chance(50) {
+		c.checkEnum(hk.Hex([]byte(keys[rnd.Intn(len(keys))])), 1+rnd.Intn(4))
+	}
+	var ws []string
+	for w := range c.anyWhole {
+		ws = append(ws, w)
+	}
+	sort.Strings(ws)
+	for _, w := range ws {
+		content := c.anyWhole[w]
+		offs := []int{0}
+		if rnd.Chance(60) {
+			offs = append(offs, rnd.Intn(len(content)+1))
+		}
+		if rnd.Chance(10) {
+			offs = append(offs, len(content), len(content)+5)
+		}
+		for _, off := range offs {
+			got := c.op(fmt.Sprintf("whole %s %d", w, off))
+			rest := []byte{}
+			if off < len(content) {
+				rest = content[off:]
+			}
+			want := fmt.Sprintf("ok %d %d %d", len(content), len(rest), fnv64(rest))
+			_, must := c.wholes[w]
+			switch {
+			case got == want:
+				c.r.Hit("whole:served")
+			case strings.HasPrefix(got, "ok "), strings.HasPrefix(got, "readerr"), got == "err":
+				c.fail("wholeref-wrong-bytes", fmt.Sprintf("OpenWholeRef(%s, %d)", w, off), want, got)
+			case must:
+				c.fail("wholeref-lost", fmt.Sprintf("OpenWholeRef(%s, %d) of a completely packed file", w, off), want, got)
+			default:
+				c.r.Hit("whole:not-packed")
+			}
+		}
+	}
+}
+
+func (c *caseRun) checkEnum(afterHex string, limit int) {
+	after, _ := hk.UnHex(afterHex)
+	var ks []string
+	for k := range c.ref {
+		if k > string(after) {
+			ks = append(ks, k)
+		}
+	}
+	sort.Strings(ks)
+	if len(ks) > limit {
+		ks = ks[:limit]
+	}
+	var l []string
+	for _, k := range ks {
+		l = append(l, fmt.Sprintf("%s:%d", k, len(c.ref[k])))
+	}
+	want := "-"
+	if len(l) > 0 {
+		want = strings.Join(l, ",")
+	}
+	got := c.op(fmt.Sprintf("enum %s %d", afterHex, limit))
+	if got == want {
+		return
+	}
+	// classify: a removed blob that recovery brought back is the known finding; anything else is not
+	gotSet := map[string]bool{}
+	for _, e := range strings.Split(got, ",") {
+		k, _, _ := strings.Cut(e, ":")
+		if gotSet[k] {
+			c.fail("enumerate-duplicate", "blob enumerated twice: "+k, want, got)
+			return
+		}
+		gotSet[k] = true
+	}
+	onlyResurrected := got != "-" && got != "err"
+	for k := range gotSet {
+		if _, ok := c.ref[k]; !ok && !(c.rmPacked[k] && c.recov) {
+			onlyResurrected = false
+		}
+	}
+	for _, k := range ks {
+		if !gotSet[k] && limit >= 100000 {
+			onlyResurrected = false
+		}
+	}
+	if onlyResurrected {
+		c.fail("recovery-resurrects-removed-blob", "enumerate lists a removed blob after recovery", want, got)
+		return
+	}
+	c.fail("enumerate-mismatch", "enum "+afterHex, want, got)
+}
+
+// visibility handles a blob whose answer differs from the reference map.
+func (c *caseRun) visibility(k, op, want, got string) {
+	_, present := c.ref[k]
+	if !present && c.rmPacked[k] && c.recov && got != "notexist" && got != "err" {
+		c.fail("recovery-resurrects-removed-blob", op+" of "+k+" (removed, then recovery from the zips)", want, got)
+		c.ref[k] = c.tbl[k].data // follow the implementation so that the rest of the case stays meaningful
+		delete(c.rmPacked, k)
+		return
+	}
+	c.fail("visibility-"+op, op+" "+k, want, got)
+}
+
+func (c *caseRun) rm(keys ...string) {
+	out := c.op("rm " + strings.Join(keys, " "))
+	if out != "ok" {
+		c.fail("remove-error", "rm", "ok", out)
+		return
+	}
+	for _, k := range keys {
+		delete(c.ref, k)
+		if c.inZip[k] {
+			c.rmPacked[k] = true
+			c.recov = false
+		}
+	}
+	c.feats["rm"] = true
+}
+
+func (c *caseRun) restart(mode string) string {
+	out := c.op("restart " + mode)
+	c.r.Hit("restart:" + mode)
+	f := strings.Fields(out)
+	if len(f) == 2 {
+		c.r.Hit("mech:integrity-check=" + f[1])
+	}
+	if len(f) < 1 || f[0] != "ok" {
+		c.fail("recovery-fails:"+f[0], "restart "+mode, "ok", out)
+		// bring the storage back without recovery so that the case can go on
+		c.op("restart none")
+		return out
+	}
+	if mode != "none" {
+		c.recov = true
+		c.feats["recover:"+mode] = true
+	}
+	return out
+}
+
+// zipCheck opens every stored zip with archive/zip (implementation side only) and checks what the
+// property says about a produced zip: within the size limit, first entry = a contiguous slice of
+// the file, manifest offsets = running sums, part index / whole ref / whole size consistent.
+func (c *caseRun) zipCheck() {
+	w := c.st.w
+	if w == nil {
+		return
+	}
+	limit := c.zipMax
+	if limit == 0 {
+		limit = 16 << 20
+	}
+	for _, zs := range w.large.BlobrefStrings() {
+		zb, ok := w.large.BlobContents(blob.MustParse(zs))
+		if !ok {
+			continue
+		}
+		c.r.ImplOnly("zipcheck")
+		if !c.shadow[zs] {
+			c.fail("harness-shadow-zip-mismatch", "stored zip "+zs+" was not predicted by the shadow packer", "", "")
+			continue
+		}
+		if len(zb) > limit {
+			c.fail("zip-over-limit", zs, fmt.Sprint(limit), fmt.Sprint(len(zb)))
+		}
+		if blob.RefFromBytes([]byte(zb)).String() != zs {
+			c.fail("zip-not-a-valid-blob", zs, "", "")
+		}
+		zr, err := zip.NewReader(strings.NewReader(zb), int64(len(zb)))
+		if err != nil || len(zr.File) < 2 {
+			c.fail("zip-unreadable", zs, "", fmt.Sprint(err))
+			continue
+		}
+		rc, _ := zr.File[0].Open()
+		data, _ := io.ReadAll(rc)
+		rc.Close()
+		var mf blobpacked.Manifest
+		found := false
+		for _, f := range zr.File {
+			if f.Name == "camlistore/camlistore-pack-manifest.json" {
+				mrc, _ := f.Open()
+				err = json.NewDecoder(mrc).Decode(&mf)
+				mrc.Close()
+				found = err == nil
+			}
+		}
+		if !found {
+			c.fail("zip-no-manifest", zs, "", "")
+			continue
+		}
+		content, known := c.anyWhole[mf.WholeRef.String()]
+		if !known || int64(len(content)) != mf.WholeSize {
+			c.fail("zip-manifest-whole", zs, "", mf.WholeRef.String())
+			continue
+		}
+		var off int64
+		good := true
+		for _, e := range mf.DataBlobs {
+			b := c.tbl[e.Ref.String()]
+			if e.Offset != off || b == nil || uint32(len(b.data)) != e.Size ||
+				!bytes.Equal(data[off:off+int64(e.Size)], b.data) {
+				good = false
+			}
+			off += int64(e.Size)
+		}
+		if !good || off != int64(len(data)) {
+			c.fail("zip-manifest-offsets", zs, "", "")
+		}
+		// position in the file: from the z: row when it is there, else anywhere
+		row, err := w.kv.KeyValue.Get("z:" + zs)
+		if err == nil {
+			var zsize, wsize, woff, dlen int64
+			var wref string
+			fmt.Sscanf(row, "%d %s %d %d %d", &zsize, &wref, &wsize, &woff, &dlen)
+			if woff+dlen > int64(len(content)) || dlen != int64(len(data)) || !bytes.Equal(content[woff:woff+dlen], data) {
+				c.fail("zip-first-entry-not-file-slice", zs, "", row)
+			}
+		} else if !bytes.Contains(content, data) {
+			c.fail("zip-first-entry-not-file-slice", zs, "", "no z: row")
+		}
+	}
+}
+
+// ---- files ------------------------------------------------------------------------------------------------
+
+func (c *caseRun) addFile(f *fileT) {
+	c.files = append(c.files, f)
+	c.anyWhole[f.whole.String()] = f.content
+}
+
+// lightFile: few distinct small chunks, repeated until the parts sum reaches the packing threshold.
+func lightFile(rnd *hk.Rand, name string, nested bool) *fileT {
+	nd := 1 + rnd.Intn(3)
+	size := []int{4 << 10, 8 << 10, 16 << 10, 24 << 10}[rnd.Intn(4)]
+	var chunks [][]byte
+	for i := 0; i < nd; i++ {
+		chunks = append(chunks, rnd.Bytes(size+rnd.Intn(64)))
+	}
+	var ts treeSpec
+	ts.chunks = chunks
+	total := 0
+	for total < packThreshold+rnd.Intn(40<<10) {
+		if nested && rnd.Chance(30) {
+			var idxs []int
+			for j := 0; j < 2+rnd.Intn(3); j++ {
+				ci := rnd.Intn(nd)
+				idxs = append(idxs, ci)
+				total += len(chunks[ci])
+			}
+			ts.layout = append(ts.layout, idxs)
+			ts.nested = append(ts.nested, true)
+			continue
+		}
+		ci := rnd.Intn(nd)
+		ts.layout = append(ts.layout, []int{ci})
+		ts.nested = append(ts.nested, false)
+		total += len(chunks[ci])
+	}
+	f := craftedFile(name, ts, time.Time{})
+	f.shape = fmt.Sprintf("light:%dx%dK:nested=%v", nd, size>>10, nested)
+	return f
+}
+
+// chunkyFile: a handful of distinct chunks of 60..260 KiB, each used once (a "normal" file, hand cut).
+func chunkyFile(rnd *hk.Rand, name string, nChunks int) *fileT {
+	var ts treeSpec
+	total := 0
+	for i := 0; i < nChunks || total < packThreshold; i++ {
+		n := 60<<10 + rnd.Intn(200<<10)
+		ts.chunks = append(ts.chunks, rnd.Bytes(n))
+		ts.layout = append(ts.layout, []int{i})
+		ts.nested = append(ts.nested, false)
+		total += n
+	}
+	f := craftedFile(name, ts, time.Unix(1500000000+int64(rnd.Intn(1000)), 0))
+	f.shape = fmt.Sprintf("chunky:%d", len(ts.chunks))
+	return f
+}
+
+func randomName(rnd *hk.Rand) string {
+	switch rnd.Intn(5) {
+	case 0:
+		return strings.Repeat("n", 150+rnd.Intn(90)) + ".bin" // makes the size estimate too low
+	case 1:
+		return "ä-" + fmt.Sprint(rnd.Intn(100)) + ".dat"
+	}
+	return fmt.Sprintf("f%d.bin", rnd.Intn(1000))
+}
+
+// writeSeq is the sequence of lower-layer writes the pack of a file makes when nothing fails:
+// the loose store of the file schema blob, then per stored zip large/meta/delete, then the final row.
+func writeSeq(atts []attempt) []string {
+	seq := []string{"small"}
+	complete := len(atts) > 0
+	for _, a := range atts {
+		if !a.stored {
+			if a.trunc == "" {
+				complete = false
+			}
+			continue
+		}
+		seq = append(seq, "large", "meta", "delete")
+	}
+	if complete {
+		seq = append(seq, "final")
+	}
+	return seq
+}
+
+// upload sends the blobs of f (in the given order) and returns the shadow plan of the last blob sent.
+func (c *caseRun) upload(rnd *hk.Rand, f *fileT, schemaFirst bool, budget string) (string, []attempt) {
+	blobs := append([]*lblob(nil), f.blobs...)
+	last := blobs[len(blobs)-1]
+	if schemaFirst {
+		// the file schema blob arrives before its chunks (nothing can be packed yet), then again at the end
+		c.recv(last, "")
+		c.r.Hit("order:schema-first")
+		c.feats["schema-first"] = true
+	} else if rnd.Chance(30) {
+		// chunks in a random order (the schema blobs still after their children is not required either)
+		rest := blobs[:len(blobs)-1]
+		for i := len(rest) - 1; i > 0; i-- {
+			j := rnd.Intn(i + 1)
+			rest[i], rest[j] = rest[j], rest[i]
+		}
+		c.r.Hit("order:shuffled-chunks")
+	} else {
+		c.r.Hit("order:writer")
+	}
+	for _, b := range blobs[:len(blobs)-1] {
+		c.recv(b, "")
+	}
+	out, atts := c.recv(last, budget)
+	return out, atts
+}
+
+// afterPack books what the (possibly cut) pack of f did, given the shadow plan and the budget k
+// (k < 0: no budget).
+func (c *caseRun) afterPack(f *fileT, atts []attempt, k int) {
+	seq := writeSeq(atts)
+	done := len(seq)
+	if k >= 0 && k < len(seq) {
+		done = k
+		c.r.Hit("crash:before-" + seq[k])
+		c.feats["crash:"+seq[k]] = true
+	}
+	if done == len(seq) && len(seq) > 1 && seq[len(seq)-1] == "final" {
+		c.wholes[f.whole.String()] = f.content
+		c.r.Hit("pack:complete")
+	}
+	n := 0
+	for _, a := range atts {
+		if a.stored {
+			n++
+		}
+	}
+	if n > 1 {
+		c.r.Hit("pack:multi-zip")
+		c.feats["multi-zip"] = true
+	} else if n == 1 {
+		c.r.Hit("pack:single-zip")
+	}
+	// which logical blobs may now be inside a zip
+	if done >= 2 {
+		for _, b := range f.blobs {
+			c.inZip[b.ref.String()] = true
+		}
+	}
+}
+
+// pickZipMax chooses a zip size limit that cuts f into about n zips (0 = the default limit).
+func pickZipMax(rnd *hk.Rand, f *fileT, n int) int {
+	if n <= 1 {
+		return 0
+	}
+	return len(f.content)/n + 2000 + rnd.Intn(4000)
+}
+
+// ---- Run -----------------------------------------------------------------------------------------------------
+
+func Run(r *hk.Run) {
+	rnd := r.R
+	r.Res.Rule = "a case = one blobpacked storage (CreateStorage(\"blobpacked\") over memory small/large + a shared memory meta index, zip size limit default or lowered through the verif hook) and a history: files at/above the packing threshold (cut by schema.WriteFileFromReader, or hand-made file/bytes schema trees with repeated chunks, nested bytes blobs, long names) uploaded chunks-first, shuffled or schema-first; the same bytes under a second name; files sharing chunks; every pack optionally cut after its k-th lower-layer write (k over the whole write sequence, with partially executed loose-blob deletions); restart without recovery / fast / full; removals and re-uploads. After every step every announced blob is fetched, stat-ed, range-fetched and the whole store enumerated and compared with a reference map; OpenWholeRef is compared with the file bytes; every stored zip is opened with archive/zip and checked (size limit, first entry = file slice, manifest offsets). distinct_nontrivial = distinct (family, file shape, #zips class, crash write kind, recovery mode, removal) tuples among cases with at least one pack"
+	nSweep, nHist, nWritten := 3, 14, 2
+	if r.Thorough() {
+		nSweep, nHist, nWritten = 14, 90, 10
+	}
+	// family A: exhaustive crash points of one light file (single- and multi-zip)
+	for i := 0; i < nSweep; i++ {
+		crashSweep(r, rnd.Fork(), i)
+	}
+	// family B: random multi-file histories
+	for i := 0; i < nHist; i++ {
+		history(r, rnd.Fork(), i)
+	}
+	// family C: files cut by the real file writer (rolling checksum), default and lowered limits
+	for i := 0; i < nWritten; i++ {
+		writtenCase(r, rnd.Fork(), i)
+	}
+	// family D: the truncate-and-retry window
+	for i := 0; i < nSweep; i++ {
+		truncateCase(r, rnd.Fork(), i)
+	}
+	malformed(r, rnd.Fork())
+	probes(r)
+}
+
+func (c *caseRun) finish(family string, f *fileT, nz int) {
+	c.zipCheck()
+	var fs []string
+	for k := range c.feats {
+		fs = append(fs, k)
+	}
+	sort.Strings(fs)
+	shape := ""
+	if f != nil {
+		shape = f.shape
+	}
+	zc := "1"
+	if nz > 1 {
+		zc = "n"
+	} else if nz == 0 {
+		zc = "0"
+	}
+	c.r.Distinct(family + "|" + shape + "|" + zc + "|" + strings.Join(fs, ","))
+}
+
+func countStored(atts []attempt) int {
+	n := 0
+	for _, a := range atts {
+		if a.stored {
+			n++
+		}
+	}
+	return n
+}
+
+// crashSweep: one light file; for every k (and some partial deletions) a fresh storage, the cut pack,
+// reads, a restart in one of the three modes, reads, then a second upload under another name or a
+// removal, a recovery, reads.
+func crashSweep(r *hk.Run, rnd *hk.Rand, i int) {
+	f := lightFile(rnd, randomName(rnd), i%2 == 1)
+	nz := 1 + (i % 3)
+	zipMax := pickZipMax(rnd, f, nz)
+	tbl := map[string]*lblob{}
+	for _, b := range f.blobs {
+		tbl[b.ref.String()] = b
+	}
+	atts, _, _ := shadowPack(tbl, f.fileRef, zipMax)
+	seq := writeSeq(atts)
+	modes := []string{"none", "fast", "full"}
+	for k := 0; k <= len(seq); k++ {
+		budget := fmt.Sprintf("k=%d", k)
+		if k < len(seq) && seq[k] == "delete" && rnd.Chance(60) {
+			budget += fmt.Sprintf(".%d", 1+rnd.Intn(3))
+		}
+		c := newCase(r, fmt.Sprintf("crash-sweep %s zipMax=%d %s of %v", f.shape, zipMax, budget, seq), zipMax)
+		c.addFile(f)
+		_, a := c.upload(rnd, f, false, budget)
+		c.afterPack(f, a, k)
+		if strings.Contains(budget, ".") {
+			c.r.Hit("crash:partial-delete")
+			c.feats["partial-delete"] = true
+		}
+		c.sweep(rnd)
+		c.op("dump")
+		mode := modes[(k+i)%3]
+		c.restart(mode)
+		c.sweep(rnd)
+		c.op("dump")
+		switch rnd.Intn(3) {
+		case 0:
+			// the same bytes under another name: a second pack over whatever the first one left
+			g := renamed(f, randomName(rnd))
+			c.addFile(g)
+			_, a2 := c.upload(rnd, g, false, "")
+			c.afterPack(g, a2, -1)
+			c.feats["second-name"] = true
+			c.r.Hit("files:same-bytes-two-names")
+		case 1:
+			// the client retries the upload of the file schema blob
+			_, a2 := c.recv(f.blobs[len(f.blobs)-1], "")
+			_ = a2
+			c.feats["retry"] = true
+		case 2:
+			ks := c.someKeys(rnd, 1+rnd.Intn(2))
+			if len(ks) > 0 {
+				c.rm(ks...)
+			}
+		}
+		c.sweep(rnd)
+		c.op("dump")
+		c.restart(modes[rnd.Intn(3)])
+		c.sweep(rnd)
+		c.op("dump")
+		c.finish("crash-sweep", f, countStored(atts))
+		if i == 0 && k == 2 {
+			r.Sample(map[string]any{"family": "crash-sweep", "file": f.shape, "zipMax": zipMax, "writes": seq, "budget": budget})
+		}
+	}
+}
+
+// renamed: the same parts under another file name (a different file schema blob, the same whole ref).
+func renamed(f *fileT, name string) *fileT {
+	old := f.blobs[len(f.blobs)-1]
+	js := string(old.data)
+	// the builder writes "fileName": "<name>"; replace it textually and recompute the ref
+	i := strings.Index(js, `"fileName": "`)
+	if i < 0 {
+		return f
+	}
+	j := i + len(`"fileName": "`)
+	e := strings.Index(js[j:], `"`)
+	nj, _ := json.Marshal(name)
+	njs := js[:j] + string(nj[1:len(nj)-1]) + js[j+e:]
+	data := []byte(njs)
+	br := blob.RefFromBytes(data)
+	g := &fileT{name: name, fileRef: br, content: f.content, whole: f.whole, shape: f.shape + "+renamed"}
+	g.blobs = append(g.blobs, f.blobs[:len(f.blobs)-1]...)
+	g.blobs = append(g.blobs, &lblob{ref: br, data: data, kind: kindOf(br, data)})
+	return g
+}
+
+func (c *caseRun) someKeys(rnd *hk.Rand, n int) []string {
+	var ks []string
+	for k := range c.ref {
+		ks = append(ks, k)
+	}
+	sort.Strings(ks)
+	var out []string
+	for i := 0; i < n && len(ks) > 0; i++ {
+		j := rnd.Intn(len(ks))
+		out = append(out, ks[j])
+		ks = append(ks[:j], ks[j+1:]...)
+	}
+	return out
+}
+
+// history: several files, random budgets, restarts, removals, re-uploads.
+func history(r *hk.Run, rnd *hk.Rand, i int) {
+	var files []*fileT
+	nf := 1 + rnd.Intn(3)
+	for j := 0; j < nf; j++ {
+		var f *fileT
+		switch {
+		case j > 0 && rnd.Chance(35):
+			f = renamed(files[rnd.Intn(len(files))], randomName(rnd))
+		case rnd.Chance(30):
+			f = chunkyFile(rnd, randomName(rnd), 3+rnd.Intn(4))
+		default:
+			f = lightFile(rnd, randomName(rnd), rnd.Bool())
+		}
+		files = append(files, f)
+	}
+	nz := 1 + rnd.Intn(4)
+	zipMax := pickZipMax(rnd, files[0], nz)
+	c := newCase(r, fmt.Sprintf("history #%d zipMax=%d files=%d", i, zipMax, nf), zipMax)
+	maxZ := 0
+	for _, f := range files {
+		c.addFile(f)
+		budget := ""
+		k := -1
+		schemaFirst := rnd.Chance(20)
+		tblAtts, _, _ := shadowPack(mergeTbl(c.tbl, f), f.fileRef, zipMax)
+		seq := writeSeq(tblAtts)
+		if rnd.Chance(55) {
+			k = rnd.Intn(len(seq) + 1)
+			budget = fmt.Sprintf("k=%d", k)
+			if k < len(seq) && seq[k] == "delete" && rnd.Bool() {
+				budget += fmt.Sprintf(".%d", 1+rnd.Intn(4))
+			}
+		}
+		_, atts := c.upload(rnd, f, schemaFirst, budget)
+		c.afterPackGuess(f, atts, k)
+		if n := countStored(atts); n > maxZ {
+			maxZ = n
+		}
+		c.sweep(rnd)
+		if k >= 0 || rnd.Chance(40) {
+			c.restart([]string{"none", "fast", "full"}[rnd.Intn(3)])
+			c.sweep(rnd)
+		}
+		if rnd.Chance(45) {
+			ks := c.someKeys(rnd, 1+rnd.Intn(3))
+			if len(ks) > 0 {
+				c.rm(ks...)
+				c.sweep(rnd)
+				if rnd.Chance(50) {
+					// re-upload one of them
+					c.recv(c.tbl[ks[0]], "")
+					c.feats["re-upload"] = true
+					c.sweep(rnd)
+				}
+			}
+		}
+		c.op("dump")
+	}
+	c.restart([]string{"fast", "full"}[rnd.Intn(2)])
+	c.sweep(rnd)
+	c.op("dump")
+	c.finish("history", files[0], maxZ)
+	if i < 2 {
+		ops := c.r.CaseOps()
+		var kinds []string
+		for _, o := range ops {
+			w, _, _ := strings.Cut(o, " ")
+			kinds = append(kinds, w)
+		}
+		if len(kinds) > 40 {
+			kinds = kinds[:40]
+		}
+		r.Sample(map[string]any{"family": "history", "label": c.label, "op_kinds": strings.Join(kinds, " ")})
+	}
+}
+
+func mergeTbl(tbl map[string]*lblob, f *fileT) map[string]*lblob {
+	m := map[string]*lblob{}
+	for k, v := range tbl {
+		m[k] = v
+	}
+	for _, b := range f.blobs {
+		m[b.ref.String()] = b
+	}
+	return m
+}
+
+// afterPackGuess: like afterPack, but in a history the pack may legitimately not happen at all (the
+// whole ref is already packed, blobs were removed, the file schema blob is already inside a zip); the
+// oracle then only requires what the property requires: nothing visible changes.
+func (c *caseRun) afterPackGuess(f *fileT, atts []attempt, k int) {
+	w := c.st.w
+	if w == nil {
+		return
+	}
+	if _, err := w.kv.KeyValue.Get("w:" + f.whole.String()); err == nil {
+		c.wholes[f.whole.String()] = f.content
+	}
+	if countStored(atts) > 1 {
+		c.feats["multi-zip"] = true
+		c.r.Hit("pack:multi-zip")
+	}
+	if k >= 0 {
+		c.feats["crash"] = true
+		c.r.Hit("crash:random-point")
+	}
+	for _, zs := range w.large.BlobrefStrings() {
+		_ = zs
+		for _, b := range f.blobs {
+			c.inZip[b.ref.String()] = true
+		}
+		break
+	}
+}
+
+func writtenCase(r *hk.Run, rnd *hk.Rand, i int) {
+	size := packThreshold + rnd.Intn(300<<10)
+	if i%4 == 3 {
+		size = 1<<20 + rnd.Intn(700<<10)
+	}
+	content := rnd.Bytes(size)
+	if i%3 == 1 {
+		// repeated content: the rolling checksum cuts the repetition into repeated chunks
+		block := rnd.Bytes(150 << 10)
+		content = nil
+		for len(content) < size {
+			content = append(content, block...)
+		}
+	}
+	f, err := writtenFile(randomName(rnd), content, time.Unix(1400000000+int64(i), 0))
+	if err != nil {
+		r.Note("writtenFile: " + err.Error())
+		return
+	}
+	nz := 1 + i%3
+	zipMax := pickZipMax(rnd, f, nz)
+	c := newCase(r, fmt.Sprintf("written #%d size=%d blobs=%d zipMax=%d", i, size, len(f.blobs), zipMax), zipMax)
+	c.addFile(f)
+	tbl := mergeTbl(nil, f)
+	atts, _, _ := shadowPack(tbl, f.fileRef, zipMax)
+	seq := writeSeq(atts)
+	k := -1
+	budget := ""
+	if i%2 == 1 {
+		k = rnd.Intn(len(seq) + 1)
+		budget = fmt.Sprintf("k=%d", k)
+	}
+	_, a := c.upload(rnd, f, i%5 == 4, budget)
+	c.afterPack(f, a, k)
+	c.r.Hit("files:cut-by-WriteFileFromReader")
+	c.sweep(rnd)
+	c.op("dump")
+	c.restart([]string{"none", "fast", "full"}[i%3])
+	c.sweep(rnd)
+	if rnd.Bool() {
+		ks := c.someKeys(rnd, 2)
+		if len(ks) > 0 {
+			c.rm(ks...)
+			c.sweep(rnd)
+			c.restart("full")
+			c.sweep(rnd)
+		}
+	}
+	c.op("dump")
+	c.finish("written", f, countStored(atts))
+	if i == 0 {
+		r.Sample(map[string]any{"family": "written", "label": c.label, "writes": seq})
+	}
+}
+
+// truncateCase looks for a zip size limit at which the estimate accepts a zip that then turns out too
+// large (long file names make the estimate too low), so that the walk-back and the retry run.
+func truncateCase(r *hk.Run, rnd *hk.Rand, i int) {
+	name := strings.Repeat("x", 180+rnd.Intn(60)) + ".bin"
+	var f *fileT
+	if i%2 == 0 {
+		f = chunkyFile(rnd, name, 4+rnd.Intn(3))
+	} else {
+		f = lightFile(rnd, name, false)
+	}
+	tbl := mergeTbl(nil, f)
+	// scan limits downwards from "everything fits" until an attempt overflows
+	base, _, _ := shadowPack(tbl, f.fileRef, 0)
+	if len(base) == 0 {
+		return
+	}
+	found := 0
+	for zm := base[0].size - 1; zm > base[0].size-800 && found == 0; zm -= 7 {
+		atts, _, _ := shadowPack(tbl, f.fileRef, zm)
+		for _, a := range atts {
+			if a.trunc != "" {
+				found = zm
+			}
+		}
+	}
+	if found == 0 {
+		r.Hit("truncate:window-not-found")
+		return
+	}
+	c := newCase(r, fmt.Sprintf("truncate %s zipMax=%d", f.shape, found), found)
+	c.addFile(f)
+	out, atts := c.upload(rnd, f, false, "")
+	c.afterPack(f, atts, -1)
+	if !strings.Contains(out, "t=0") {
+		c.r.Hit("pack:walk-back-observed-by-hook")
+	}
+	c.feats["truncate"] = true
+	c.sweep(rnd)
+	c.op("dump")
+	c.restart("full")
+	c.sweep(rnd)
+	c.op("dump")
+	c.finish("truncate", f, countStored(atts))
+}
+
+func malformed(r *hk.Run, rnd *hk.Rand) {
+	c := newCase(r, "malformed stream", 0)
+	good := "sha224-" + strings.Repeat("ab", 28)
+	lines := []string{
+		"recv", "recv " + good, "recv " + good + " zz raw", "recv " + good + " 00 rawx", "recv " + good + " 00 file:2:-",
+		"recv " + good + " 00 bytes:B:" + good + ":0", "recv sha224-xyz 00 raw", "recv " + good + " 00 raw k=", "recv " + good + " 00 raw k=1.2.3",
+		"recv " + good + " 00 raw k=1 k=2", "recv " + good + " 00 raw whole=" + good, "recv " + good + " 00 raw whole=" + good + " zips=a:b",
+		"fetch", "fetch x", "fetch " + good + " " + good, "sub " + good + " 1", "sub " + good + " a 1", "stat", "enum", "enum zz 1", "enum - x",
+		"rm", "rm x", "restart", "restart slow", "whole " + good, "whole " + good + " x", "dump x", "frobnicate", "cfg", "cfg x",
+		"fetch " + good, "stat " + good, "whole " + good + " 0", "enum - 5", "sub " + good + " 0 5", "rm " + good, "dump",
+	}
+	for _, l := range lines {
+		c.op(l)
+	}
+	_ = rnd
+}
+
+// ---- known / fixed findings: their witnesses, re-executed on every run ----------------------------------
+
+// probeFile is the light file of the findings' witnesses: one 8 KiB chunk used 64 times.
+func probeFile() *fileT {
+	chunk := make([]byte, 8<<10)
+	for i := range chunk {
+		chunk[i] = byte(i * 7)
+	}
+	var ts treeSpec
+	ts.chunks = [][]byte{chunk}
+	for i := 0; i < 64; i++ {
+		ts.layout = append(ts.layout, []int{0})
+		ts.nested = append(ts.nested, false)
+	}
+	return craftedFile("probe.bin", ts, time.Time{})
+}
+
+// WitnessOps returns the op lines of the three findings' witnesses (used to write known_findings.d).
+func WitnessOps() map[string][]string {
+	f := probeFile()
+	tbl := mergeTbl(nil, f)
+	out := map[string][]string{}
+	mk := func(zipMax int, budget string) []string {
+		atts, whole, _ := shadowPack(tbl, f.fileRef, zipMax)
+		ops := []string{fmt.Sprintf("cfg %d", zipMax)}
+		for i, b := range f.blobs {
+			l := "recv " + b.ref.String() + " " + hk.Hex(b.data) + " " + b.kind
+			if i == len(f.blobs)-1 {
+				if budget != "" {
+					l += " " + budget
+				}
+				l += " " + oracleWords(atts, whole)
+			}
+			ops = append(ops, l)
+		}
+		return ops
+	}
+	chunk := f.blobs[0].ref.String()
+	out["F-C04-1"] = append(mk(4000, "k=40"), "dump")
+	out["F-C04-2"] = append(mk(0, "k=3"), "rm "+chunk, "fetch "+chunk, "stat "+chunk, "enum - 10")
+	out["F-C04-3"] = append(mk(0, ""), "rm "+chunk, "fetch "+chunk, "restart fast", "fetch "+chunk, "enum - 10")
+	return out
+}
+
+func probes(r *hk.Run) {
+	w := WitnessOps()
+	run := func(ops []string) []string {
+		ex := NewExec()
+		var outs []string
+		for _, o := range ops {
+			outs = append(outs, ex(strings.Fields(o)))
+		}
+		return outs
+	}
+	// F-C04-1 (fixed): a chunk that does not fit under the zip size limit made pack store empty zips forever
+	o1 := run(w["F-C04-1"])
+	d := o1[len(o1)-1]
+	r.Probe("F-C04-1", !strings.Contains(d, "large=- "), "zip limit 4000, first chunk 8 KiB, 40 writes allowed: "+trunc(d[strings.Index(d, "large="):]))
+	// … and at the real limit, without any hook: one chunk of MaxBlobSize-600 bytes
+	r.Probe("F-C04-1-real-limit", bigChunkProbe(), "file with one chunk of 16 MiB - 600 bytes at the default zip size limit: zips stored within 40 writes")
+	// F-C04-2 (fixed): remove of a blob that is packed and still loose
+	o2 := run(w["F-C04-2"])
+	n := len(o2)
+	r.Probe("F-C04-2", o2[n-3] != "notexist" || o2[n-2] != "notexist", "pack cut after its meta commit, rm chunk -> fetch="+o2[n-3]+" stat="+o2[n-2])
+	// F-C04-3 (known): recovery from the zips brings removed blobs back
+	o3 := run(w["F-C04-3"])
+	n = len(o3)
+	r.Probe("F-C04-3", o3[n-4] == "notexist" && o3[n-2] != "notexist", "pack, rm chunk (fetch="+o3[n-4]+"), restart fast ("+o3[n-3]+") -> fetch="+trunc(o3[n-2]))
+}
+
+// bigChunkProbe runs the real-limit variant of F-C04-1 directly on the implementation (no protocol:
+// 16 MiB of hex per line would not be reasonable); true = empty zips were stored.
+func bigChunkProbe() bool {
+	chunk := bytes.Repeat([]byte{0x5a}, 16<<20-600)
+	var ts treeSpec
+	ts.chunks = [][]byte{chunk}
+	ts.layout = [][]int{{0}}
+	ts.nested = []bool{false}
+	f := craftedFile("big.bin", ts, time.Time{})
+	w := newWorld(0)
+	if s, _ := w.start(blobpacked.NoRecovery); s != "ok" {
+		return false
+	}
+	for i, b := range f.blobs {
+		if i == len(f.blobs)-1 {
+			w.arm(40, 0)
+		}
+		saved := osStderrQuiet()
+		w.sto.ReceiveBlob(ctx, b.ref, bytes.NewReader(b.data))
+		saved()
+	}
+	w.disarm()
+	return len(w.large.BlobrefStrings()) > 0
+}
